@@ -314,10 +314,10 @@ func init() {
 			defer pool.Close()
 			var tasks []crashTask
 			cfgs := []string{"flushy/bytewise", "rot/bytewise", "bigbatch/bytewise", "default/bytewise"}
-			depth := 2
+			depth := 3
 			full := false
 			if c.Tier == "thorough" {
-				depth = 3
+				depth = 4
 				full = true
 				cfgs = append(cfgs, "deep/bytewise", "nobig/bytewise", "wide/bytewise")
 			}
